@@ -154,7 +154,8 @@ func monitorRetry(c schedCase, r *result, stopped bool) []string {
 		}
 		// a step that is reset (recorded failed / canceled / running, or downstream of one) is executed from
 		// scratch: with its full retry budget, and its recorded retry count = the extra attempts of THIS run
-		reset := c.Init[i] == "failed" || c.Init[i] == "canceled" || c.Init[i] == "running" || (i < len(r.St0) && r.St0[i] == "not started" && c.Init[i] != "not started")
+		// (a step recorded `not started` runs for the first time in the recorded run's terms: same clause)
+		reset := c.Init[i] == "failed" || c.Init[i] == "canceled" || c.Init[i] == "running" || c.Init[i] == "not started" || (i < len(r.St0) && r.St0[i] == "not started")
 		if reset && starts[i] > 0 && !c.Dry {
 			f, lim := c.Nodes[i].Fails, c.Nodes[i].Limit
 			want := f + 1
